@@ -339,3 +339,24 @@ func TestF17StaleNameInErrorPointer(t *testing.T) {
 		}
 	}
 }
+
+// F18: a nil *Marshalers / *Unmarshalers ("equivalent to an empty list"; JoinMarshalers()
+// without arguments returns nil) made Marshal/Unmarshal dereference nil as soon as an
+// interface-typed value was met.
+func TestF18NilMarshalersOption(t *testing.T) {
+	defer func() {
+		if r := recover(); r != nil {
+			t.Fatalf("library panicked: %v", r)
+		}
+	}()
+	if _, err := json.Marshal(struct{ X any }{1}, json.WithMarshalers(nil)); err != nil {
+		t.Error(err)
+	}
+	if _, err := json.Marshal(struct{ X any }{1}, json.WithMarshalers(json.JoinMarshalers())); err != nil {
+		t.Error(err)
+	}
+	var v struct{ X any }
+	if err := json.Unmarshal([]byte(`{"X":1}`), &v, json.WithUnmarshalers(nil)); err != nil {
+		t.Error(err)
+	}
+}
